@@ -42,3 +42,12 @@ Theorem C18_invalid_writes_nothing : forall s c test,
     s_events s' = bump (Failed EInvalid) (s_events s).
 Proof. exact yaml_invalid. Qed.
 Print Assumptions C18_invalid_writes_nothing.
+
+(* non-vacuity: every theorem of this file that has hypotheses has a concrete, non-trivial instance meeting ALL of them
+   (lemmas <Theorem>_witness / <Theorem>_applied in Proofs/WitnessesP.v); a representative one is restated here *)
+From Snaps Require Import Proofs.WitnessesP.
+Example C18_witnesses :
+  (no_token_line w18_doc /\ In endseq (split_nl w18_doc)) /\
+  (fresh w18_s0 /\ wf_fs (s_fs w18_s0) /\ Forall hist_op_ok w18_h /\ Forall has_value w18_h /\
+   Forall rec_ok (snd (run w18_s0 w18_h))).
+Proof. exact C18_witnesses_all. Qed.
